@@ -119,8 +119,10 @@ impl GTx {
         t.timestamp = self.timestamp;
         t.from = self.from.iter().map(|s| s.to_slip()).collect();
         t.to = self.to.iter().map(|s| s.to_slip()).collect();
-        t.data = data_bytes(self.data_len, self.data_seed);
         t.transaction_type = tx_type_from(self.tx_type);
+        // structural validity: the payload of a golden ticket transaction is a 97-byte ticket
+        let len = if t.transaction_type == TransactionType::GoldenTicket { 97 } else { self.data_len };
+        t.data = data_bytes(len, self.data_seed);
         t.txs_replacements = self.txs_replacements;
         t.signature = arr::<64>(&self.sig);
         t.path = self.path.iter().map(|h| h.to_hop()).collect();
